@@ -30,6 +30,11 @@ BOUNDED = {"KSI_snprintf": 1, "KSI_vsnprintf": 1, "snprintf": 1, "vsnprintf": 1,
 
 
 def run(prog, chk):
+    tostring_table(prog, chk)
+    _run(prog, chk)
+
+
+def _run(prog, chk):
     chk.explanation = (
         "(R10) in every reader / value constructor that takes a (pointer, length) pair, constant-index and first-byte dereferences are "
         "dominated by a sufficient length check and variable-index reads by 'index < length' established after the last change of the "
@@ -179,3 +184,54 @@ def run(prog, chk):
         if nrel and not d:
             chk.ob("C12.dangling", fn.name, True, "%d releases of object fields, each followed by reassignment or the end of the object" % nrel,
                    loc=fn.loc(), fn=fn)
+
+
+def tostring_table(prog, chk):
+    """KSI_TLV_toString over buffer sizes: every character written lies inside the buffer and the result is NUL terminated inside it."""
+    from ksirules.bufinterp import BufInterp, snprintf_model
+    from ksirules.interp import Ptr, inline_model, list_overrides, succeed_model
+    chk.rule("C12.tostring", "textual rendering of a TLV stays inside the caller's buffer and is NUL terminated for every buffer size", floor=30)
+    fn = prog.fn("KSI_TLV_toString", "tlv.c")
+    tp, bp, lp = [p["n"] for p in fn.params]
+    shapes = {"raw 3 octets": None, "nested, two raw children": [2, 1], "raw 0 octets": None}
+    for shape, kids in shapes.items():
+        full = None
+        for size in list(range(0, 48)) + [64, 200]:
+            inputs = {tp: Ptr("T"), bp: Ptr("STR"), lp: size, "T->tag": 0x801 if kids else 0x05, "T->isNonCritical": 0, "T->isForwardable": 1,
+                      "T->nested": Ptr("NL") if kids else 0, "T->datap_len": 0 if shape.endswith("0 octets") else 3, "T->datap": Ptr("DAT")}
+            for k, v in enumerate((0xde, 0xad, 0x0f)):
+                inputs["DAT[%d]" % k] = v
+            lists = {"NL": [Ptr("K%d" % k) for k in range(len(kids or []))]}
+            for k, n in enumerate(kids or []):
+                inputs.update({"K%d->tag" % k: k + 1, "K%d->isNonCritical" % k: 1, "K%d->isForwardable" % k: 0, "K%d->nested" % k: 0,
+                               "K%d->datap_len" % k: n, "K%d->datap" % k: Ptr("KD%d" % k)})
+                for j in range(n):
+                    inputs["KD%d[%d]" % (k, j)] = 0x10 * (k + 1) + j
+            length, element_at = list_overrides(lists)
+            ov = {"KSI_snprintf": snprintf_model, "KSI_TLVList_length": length, "KSI_TLVList_elementAt": element_at}
+            I = BufInterp(fn, {"STR": size}, inputs=inputs, call_model=inline_model(prog, {"stringify"}, fallback=succeed_model(prog, ov)),
+                          on_unknown="stop", prog=prog, loop_bound=12)
+            paths = I.run()
+            chk.paths += len(paths)
+            inst = "KSI_TLV_toString[%s,buffer=%d]" % (shape, size)
+            if len(paths) != 1 or paths[0].undetermined:
+                raise AnalysisBroken("KSI_TLV_toString: evaluation not determined for %s: %s" % (inst, [q.undetermined[:1] for q in paths]))
+            q = paths[0]
+            st = I.buffer_stores(q)
+            oob = sorted({i for (b, i, v, ln) in st if b == "STR" and not (0 <= i < size)})
+            content = {}
+            for (b, i, v, ln) in st:
+                if b == "STR":
+                    content[i] = v
+            text = ""
+            k = 0
+            while k in content and content[k] != 0:
+                text += chr(content[k]) if isinstance(content[k], int) else "?"
+                k += 1
+            terminated = size == 0 or (k in content and content[k] == 0 and k < size)
+            if size == 200:
+                full = text
+            ok = not oob and terminated
+            chk.ob("C12.tostring", inst, ok,
+                   "rendering %r%s" % (text[:60], "" if ok else ("; WRITES OUTSIDE the buffer at offsets %s" % oob if oob else "; no terminating NUL inside the buffer")),
+                   loc=fn.loc(), fn=fn, nontrivial=size in (0, 1, 27, 200))
